@@ -47,7 +47,7 @@ func (g *gen) idx() float64 {
 	if g.wrapper {
 		return float64(g.rng.Intn(int(L) + 3))
 	}
-	switch g.rng.PickW([]int{60, 22, 18}) {
+	switch g.rng.PickW([]int{84, 9, 7}) {
 	case 0:
 		if L <= 20 && g.rng.Chance(1, 2) {
 			return float64(g.rng.Intn(int(L) + 2))
@@ -79,7 +79,7 @@ func (g *gen) nonConfigurable() []float64 {
 func (g *gen) muts(large bool) []string {
 	switch {
 	case g.intOnly:
-		return []string{"shrink", "push", "pop", "set"}
+		return []string{"shrink", "push", "pop", "set"} // (no 'proto': inherited values would not be ints)
 	case g.wrapper:
 		return []string{"shrink", "push", "pop", "set", "del"}
 	case large:
@@ -93,6 +93,8 @@ func (g *gen) mut(cb *m.CB, large bool) {
 	L := g.curLen()
 	cb.Mut = core.Pick(g.rng, g.muts(large))
 	switch cb.Mut {
+	case "splice":
+		cb.Arg = float64(g.rng.Intn(int(min(L, 30)) + 1))
 	case "shrink":
 		if L > 30 {
 			cb.Arg = core.Pick(g.rng, []float64{0, 1, L - 1, 3})
@@ -416,7 +418,7 @@ func (g *gen) lenVal() Arg {
 		}
 		return Arg{V: num(core.Pick(g.rng, c))}
 	}
-	switch g.rng.PickW([]int{50, 20, 12, 10, 8}) {
+	switch g.rng.PickW([]int{60, 8, 12, 10, 10}) {
 	case 0:
 		c := []float64{0, L, L + 1, L + 3}
 		if L > 0 {
@@ -451,7 +453,7 @@ func (g *gen) protoOp() Op {
 	if g.rng.Chance(3, 10) {
 		op.On = "OP"
 	}
-	switch g.rng.PickW([]int{70, 22, 8}) {
+	switch g.rng.PickW([]int{82, 12, 6}) {
 	case 0:
 		op.I = float64(g.rng.Intn(int(min(g.curLen(), 20)) + 3))
 	case 1:
@@ -509,6 +511,9 @@ func (g *gen) next() Op {
 	}
 	if g.wrapper {
 		w[3], w[6], w[7], w[14], w[15] = 0, 0, 0, 0, 0
+	}
+	if g.intOnly {
+		w[8] = 0 // values inherited from a prototype index are not ints: outside the wrapper's common domain
 	}
 	if !array {
 		w[15] = 0
@@ -599,6 +604,8 @@ func min(a, b float64) float64 {
 	return b
 }
 
+var traceGen func(o *Op)
+
 // generate materialises the case for c.Index.
 func generate(rng *core.Rng) *Case {
 	cs := &Case{}
@@ -644,7 +651,10 @@ func generate(rng *core.Rng) *Case {
 	emit := func(op Op) {
 		cs.Ops = append(cs.Ops, op)
 		o := op
-		g.r.Try(o.run(g.r))
+		if traceGen != nil {
+			traceGen(&o)
+		}
+		g.r.Exec(o.run(g.r))
 	}
 	switch class {
 	case "sparse":
